@@ -51,6 +51,7 @@ pub struct Xcfg {
     pub ops_budget: i64,
     pub stop_when_done: bool, // chain: stop as soon as a read returns Ok with all-empty data
     pub kill_after: bool,     // kill the child right after the chain instead of giving it time to finish
+    pub eintr_permille: u32,  // probability of an injected EINTR on the parent's poll()
 }
 
 #[derive(Clone, Debug)]
@@ -172,6 +173,9 @@ pub fn exchange(ctx: &mut Ctx, cfg: &Xcfg) -> Xres {
             for kind in [k::POLL, k::READ, k::WRITE] {
                 plan::add(Rule { kind, scope: plan::SCOPE_PARENT, nth: 0, fd: -1, act: plan::ACT_DELAY_BEFORE, val: -cfg.delay_us, prob: 250 });
             }
+        }
+        if cfg.eintr_permille > 0 {
+            plan::add(Rule { kind: k::POLL, scope: plan::SCOPE_PARENT, nth: 0, fd: -1, act: plan::ACT_FAIL, val: libc::EINTR as i64, prob: cfg.eintr_permille });
         }
         if cfg.ops_budget > 0 {
             plan::OPS_BUDGET.store(cfg.ops_budget, std::sync::atomic::Ordering::SeqCst);
@@ -453,7 +457,7 @@ fn run_read(
         if rr.ok && empty && cfg.stop_when_done {
             stop = true;
         }
-        if !rr.ok && rr.err_kind != Some(io::ErrorKind::TimedOut) {
+        if !rr.ok && rr.err_kind != Some(io::ErrorKind::TimedOut) && !(rr.err_kind == Some(io::ErrorKind::Interrupted) && cfg.eintr_permille > 0) {
             stop = true;
         }
         res.reads.push(rr);
